@@ -132,6 +132,9 @@ def c30_runs(tier):
         for s in (0, 10, 7, 21):
             for o in (0, 3):
                 runs += batch('c30_batch', 5, 0, '013', 0, 0, o=o, s=s)
+        for gt in (0, 1):  # the same graphs after GraphT(GraphT&&): subgraphs must follow the new owner
+            for script in (0, 1, 2):
+                runs += batch('c30_batch', 3, gt, '03', 0, script, nlo=2, mv=1)
     # --- canonical schedule, real workers
     if quick:
         runs += batch('c30_batch', 3, 0, '1', 2, 0)
@@ -165,7 +168,6 @@ def c30_runs(tier):
         runs.append(explore('c30', 'fork', 2, 2, 1, budget=40))
         runs.append(explore('c30', 'two_components', 3, 1, 1, park=0, budget=40))
         runs.append(explore('c30', 'chain', 3, 2, 1, gt=1, b=4, budget=40))
-        runs.append(explore('c30', 'join', 3, 1, 2, budget=60))
     else:
         for shape in ('diamond', 'chain', 'fork', 'join', 'two_components'):
             for ex in (1, 3):
@@ -229,6 +231,7 @@ def c31_runs(tier):
         runs += batch('c31_batch', 4, 0, '13', 0, 0)
         for script in (1, 2):
             runs += batch('c31_batch', 4, 0, '0', 0, script, o=0)
+        runs += batch('c31_batch', 3, 0, '03', 0, 1, mv=1)
     # real workers (canonical schedule)
     if quick:
         runs += batch('c31_batch', 3, 0, '3', 2, 0, o=0)
@@ -250,7 +253,7 @@ def c31_runs(tier):
     return runs
 
 
-reg('C31', level='exploration', runs=c31_runs, quick_budget_s=300, thorough_budget_s=1800,
+reg('C31', level='exploration', runs=c31_runs, quick_budget_s=420, thorough_budget_s=1800,
     technique='bounded-exhaustive enumeration of graphs x marked subsets: real graphs, setIncomplete + ForwardPropagator + real executors under the dmc scheduler (canonical schedule), compared with an independently written reference closure (reachability + union-find over the declared biprop pairs)',
     level_text='Every DAG on n<=3 nodes x every subgraph split x insertion/declaration orders x Graph and BiPropGraph (every set of biprop pairs) x build scripts {build; clear+rebuild; grow} x every marked subset (all 2^n, applied in turn to the same graph) x all six executor variants on a 0-thread pool, samples on pools of 1-2 workers; BiPropGraph on 4 nodes (every assignment none/normal/biprop of the 6 pairs, both declaration orders). Oracle: after setIncomplete on the subset and ForwardPropagator, the incomplete nodes are exactly the forward closure plus every bidirectional set it touches; the executor runs exactly those, each once, in dependency order, leaves everything complete; isSameSet agrees with the components of the declared pairs; setAllNodesIncomplete (after marks, with or without propagation) gives a full evaluation.',
     level_note='one canonical schedule per input (the schedule dimension belongs to C30); a few bound-1 explorations and a TSan/ASan leg on partial evaluations',
